@@ -71,9 +71,10 @@ def match_known(pid, v, kf):
     for k in kf:
         if k.get("status") != "open" or k.get("property") != pid:
             continue
-        if k.get("rule") == v["rule"] and k.get("classifier") == v["classifier"]:
+        rules = k.get("rule") if isinstance(k.get("rule"), list) else [k.get("rule")]
+        if v["rule"] in rules and k.get("classifier") == v["classifier"]:
             return k
-        if k.get("rule") == v["rule"] and k.get("classifier_endswith") and v["classifier"].endswith(k["classifier_endswith"]):
+        if v["rule"] in rules and k.get("classifier_endswith") and v["classifier"].endswith(k["classifier_endswith"]):
             return k
     return None
 
